@@ -576,6 +576,35 @@ def declined_before_other_exits(prog, an, rep):
 
 def merge_cleanup(prog, an, rep):
     R = 'C19.ARG.merge-cleanup'
+    # every merged pull request is closed on its own copy of the cascade
+    # (close_queued_pull_request finalizes the copy for that PR's target)
+    hq = need_func(an, Q + '.handle_merge_queues')
+    pmq = parent_map(hq.node)
+    closes = an.direct_calls(hq, Spec.func(Q + '.close_queued_pull_request'))
+    rep.floor('C19 close_queued_pull_request sites', len(closes), 1)
+    for x in closes:
+        bound = dict(positional_args(hq, x) or [])
+        casc = bound.get('cascade')
+        loop = x
+        while loop in pmq and not isinstance(loop, ast.For):
+            loop = pmq[loop]
+        fresh = isinstance(casc, ast.Call) and \
+            src(casc.func).endswith('deepcopy')
+        if isinstance(casc, ast.Name) and isinstance(loop, ast.For):
+            # a local is fine when it is re-bound to a copy in the loop
+            fresh = any(isinstance(v, ast.Call) and
+                        src(v.func).endswith('deepcopy') and
+                        any(st_ is y for y in ast.walk(loop))
+                        for st_, v in stores_to(hq, casc.id)
+                        if v is not None)
+        rep.evaluated()
+        rep.check(fresh and isinstance(loop, ast.For), R, hq.qname +
+                  ': each merged pull request gets its own copy of the '
+                  'cascade', hq.where(x), 'close_queued_pull_request(%s) '
+                  'shares one cascade between the merged pull requests: '
+                  'the second one is closed on a cascade already finalized '
+                  'for the first (its w/ branches are not found)' %
+                  (src(casc) if casc is not None else '?'))
     f = need_func(an, I + '.merge_integration_branches')
     pm = parent_map(f.node)
     for x in prog.calls_in(f):
